@@ -108,6 +108,15 @@ func backendsFromEnv() []string {
 	if v := os.Getenv("C14_BACKENDS"); v != "" {
 		return strings.Split(v, ",")
 	}
+	return []string{beHashmap, beBbolt, beInjected, beRegistry, beConfig}
+}
+
+// concBackendsFromEnv: the concurrent part writes and deletes through
+// interfaces; it runs on the back-ends with a complete storage.
+func concBackendsFromEnv() []string {
+	if v := os.Getenv("C14_CONC_BACKENDS"); v != "" {
+		return strings.Split(v, ",")
+	}
 	return []string{beHashmap, beBbolt, beInjected}
 }
 
@@ -177,7 +186,10 @@ type tableCfg struct {
 	shadow  bool
 }
 
-var tableCfgs = []tableCfg{{beHashmap, false}, {beHashmap, true}, {beBbolt, false}, {beBbolt, true}, {beInjected, false}}
+var tableCfgs = []tableCfg{{beHashmap, false}, {beHashmap, true}, {beBbolt, false}, {beBbolt, true}, {beInjected, false}, {beRegistry, false}}
+
+// subTableCfgs: the subscription table also runs on the config module's own database.
+var subTableCfgs = append(append([]tableCfg{}, tableCfgs...), tableCfg{beConfig, false})
 
 // TestExhaustiveSingleHook enumerates every hook (phases x behaviour per phase
 // x query) against a fixed history that touches a matching and a non-matching
@@ -225,14 +237,14 @@ func TestExhaustiveSingleHook(t *testing.T) {
 		}
 	}
 	stats.CaseN(n, nontrivial, "exhaustive_single_hook_histories")
-	stats.Exhaustive("single hook: phases x behaviour per phase x 3 queries x 5 back-end configurations against a fixed put/get/delete history")
+	stats.Exhaustive("single hook: phases x behaviour per phase x 3 queries x 6 back-end configurations against a fixed put/get/delete history")
 }
 
 // TestExhaustiveSubscriptionTable enumerates subscriber privileges x record
 // flags x query (prefix, condition) x kind of write for one subscription.
 func TestExhaustiveSubscriptionTable(t *testing.T) {
 	var n, nontrivial int64
-	for _, cfg := range tableCfgs {
+	for _, cfg := range subTableCfgs {
 		for priv := 0; priv < 4; priv++ {
 			for flags := 0; flags < 4; flags++ {
 				for prefix := 0; prefix < len(prefixPool); prefix++ {
@@ -266,7 +278,7 @@ func TestExhaustiveSubscriptionTable(t *testing.T) {
 		}
 	}
 	stats.CaseN(n, nontrivial, "exhaustive_subscription_table")
-	stats.Exhaustive("single subscription: privileges x record flags x prefix x condition x 5 back-end configurations against a fixed put/push/delete/cancel history")
+	stats.Exhaustive("single subscription: privileges x record flags x prefix x condition x 7 back-end configurations (incl. runtime.Registry and the config database) against a fixed put/push/delete/cancel history")
 }
 
 // ---------------------------------------------------------------- regressions (fixed findings)
